@@ -122,7 +122,7 @@ sub internal/gen.go '	sort.Strings(newImports)' '	for k := range aliases {
 		newImports = append(newImports, k)
 	}
 	sort.Strings(newImports)'
-expect_fail "(iii) for k := range aliases in GenerateFile" mapRanges_classified mapRanges_exactly_classified
+expect_fail "(iii) for k := range aliases in GenerateFile" mapRanges_order_insensitive mapRanges_order_insensitive
 
 echo "== (iii-b) a second range over an already classified map in the same function"
 fresh
@@ -130,7 +130,7 @@ sub internal/gen.go '	sort.Strings(newImports)' '	for imp := range addImports {
 		fmt.Fprintln(&buff, imp)
 	}
 	sort.Strings(newImports)'
-expect_fail "(iii-b) second loop over addImports" mapRanges_exactly_classified
+expect_fail "(iii-b) second loop over addImports" mapRanges_order_insensitive
 
 echo "== (iii-c) a new time.Now() in the generator"
 fresh
